@@ -291,6 +291,134 @@ theorem tampered_object_octets (b : Bytes) (o : SigObjD) (hb : AllBytes b) (hd :
 
 end Octets
 
+/-! ### from the trust anchor's octets to the ROA's prefixes
+
+The pieces above and C01's chain theorem, put together for a whole validation run on octets: a trust anchor
+certificate, any number of CA certificates and a ROA, each given as an octet string and read by the decoder models;
+the only inputs from outside are the verdicts of the signature primitive and the evaluation times.  If the run
+accepts, every address of every prefix listed in the ROA's eContent lies in the resources the trust anchor's own
+octets list. -/
+section Pipeline
+open Rpki.CmsDer Rpki.CertDer
+
+/-- the coverage check only ever says yes to ranges inside the certificate's resources (no side condition on the
+ranges: an empty range has no addresses) -/
+theorem roaVerify_covers (v4 v6 : List RoaAddr) (cert : RC) (hc : C01.RC.Canon cert)
+    (h : roaVerify v4 v6 cert = true) :
+    (∀ a ∈ v4, ∀ x, a.lo ≤ x → x ≤ a.hi → mem cert.v4 x) ∧
+    (∀ a ∈ v6, ∀ x, a.lo ≤ x → x ≤ a.hi → mem cert.v6 x) := by
+  have fam : ∀ (M : Nat) (l : List RoaAddr) (c : List Blk), Chain.Canon M c →
+      (l.isEmpty || (!c.isEmpty && l.all fun a => containsBlock c ⟨a.lo, a.hi⟩)) = true →
+        ∀ a ∈ l, ∀ x, a.lo ≤ x → x ≤ a.hi → mem c x := by
+    intro M l c hcan hl a ha x h1 h2
+    have hne : l.isEmpty = false := by cases l with
+      | nil => cases ha
+      | cons _ _ => rfl
+    simp only [hne, Bool.false_or, Bool.and_eq_true, List.all_eq_true] at hl
+    exact (C03.containsBlock_iff M c hcan ⟨a.lo, a.hi⟩ (Nat.le_trans h1 h2)).1 (hl.2 a ha) x h1 h2
+  unfold roaVerify at h
+  rw [Bool.and_eq_true] at h
+  exact ⟨fam maxV4 v4 cert.v4 hc.1 h.1, fam maxV6 v6 cert.v6 hc.2.1 h.2⟩
+
+/-- one CA certificate of the chain as it comes in: octets, what the decoder read, the mode flag of the inspection,
+the verdict of its signature check, the evaluation time -/
+structure CaInput where
+  octets : Bytes
+  decoded : Decoded
+  strict : Bool
+  sigOk : Bool
+  now : Int
+
+def CaInput.facts (c : CaInput) : Facts × Int := (toFacts c.decoded false c.strict c.sigOk, c.now)
+
+/-- **Trust anchor → CA* → ROA, on octets.**  Whatever the octets and whatever the signature verdicts: if the
+trust anchor validates, the chain validates under it and `Roa::process` accepts the ROA under the last CA, then
+every address of every range read from the ROA's content is among the validated resources of the trust anchor,
+and those are exactly the blocks read from the trust anchor's octets. -/
+theorem roa_octets_within_trust_anchor
+    (bta : Bytes) (dta : Decoded) (hbta : AllBytes bta) (hdta : decodeCert bta = some dta)
+    (strictTa sigTa : Bool) (t0 : Int)
+    (cas : List CaInput) (hcas : ∀ c ∈ cas, AllBytes c.octets ∧ decodeCert c.octets = some c.decoded)
+    (b : Bytes) (o : SigObjD) (hb : AllBytes b) (hd : decodeSigObj b = some o)
+    (sigKeyOk eeSigOk crlOk : Bool) (sigInput : Bytes) (now : Int)
+    (v4 v6 : List RoaAddr) (hr : roaRanges o.content = some (v4, v6))
+    (rta rca : RC)
+    (h0 : validateTa (toFacts dta false strictTa sigTa) t0 = some rta)
+    (h1 : C01.validateChain rta (cas.map CaInput.facts) = some rca)
+    (h : roaProcess Sha.sha256N (toObj o sigKeyOk sigInput eeSigOk) v4 v6 rca now crlOk = true) :
+    (∀ a ∈ v4, ∀ x, a.lo ≤ x → x ≤ a.hi → mem rta.v4 x) ∧
+    (∀ a ∈ v6, ∀ x, a.lo ≤ x → x ≤ a.hi → mem rta.v6 x) ∧
+    fromResources (toFacts dta false strictTa sigTa).v4 = some rta.v4 ∧
+    fromResources (toFacts dta false strictTa sigTa).v6 = some rta.v6 := by
+  have _ := hr
+  have cta := C01.claimsCanon_of_octets bta dta hbta hdta false strictTa sigTa
+  have c0 := C01.validateTa_canon _ t0 rta cta h0
+  have hfs : ∀ p ∈ cas.map CaInput.facts, C01.ClaimsCanon p.1 := by
+    intro p hp
+    rw [List.mem_map] at hp
+    obtain ⟨c, hc, rfl⟩ := hp
+    exact C01.claimsCanon_of_octets c.octets c.decoded (hcas c hc).1 (hcas c hc).2 false c.strict c.sigOk
+  have s1 := C01.chain_monotone _ rta rca c0 hfs h1
+  -- the EE certificate inside the object
+  obtain ⟨_, cc, rest, hcc, htc⟩ := decodeSigObj_spec b o hb hd
+  have hdc : decodeCert cc = some o.cert := by unfold decodeCert; rw [htc]; rfl
+  have cee : C01.ClaimsCanon (toObj o sigKeyOk sigInput eeSigOk).ee :=
+    C01.claimsCanon_of_octets cc o.cert hcc hdc false true eeSigOk
+  unfold roaProcess at h
+  cases hv : validateAt Sha.sha256N (toObj o sigKeyOk sigInput eeSigOk) rca now with
+  | none => simp [hv] at h
+  | some cert =>
+    simp only [hv, Bool.and_eq_true] at h
+    obtain ⟨_, _, _, _, _, _, _, hee⟩ := (validateAt_iff _ _ rca now cert).1 hv
+    have s2 := C01.validated_subset _ rca cert now cee s1.1 (Or.inr hee)
+    obtain ⟨c4, c6⟩ := roaVerify_covers v4 v6 cert s2.1 h.2
+    obtain ⟨_, _, _, _, _, _, _, r4, r6, _⟩ := C01.validateTa_sound _ t0 rta h0
+    exact ⟨fun a ha x x1 x2 => s1.2.1 x (s2.2.1 x (c4 a ha x x1 x2)),
+           fun a ha x x1 x2 => s1.2.2.1 x (s2.2.2.1 x (c6 a ha x x1 x2)), r4, r6⟩
+
+/-- **Trust anchor → CA* → ASPA, on octets.**  The customer AS read from an accepted ASPA's content is among the AS
+resources read from the trust anchor's octets; the ASPA's EE certificate carries no IP resources and does not inherit
+its AS resources. -/
+theorem aspa_octets_within_trust_anchor
+    (bta : Bytes) (dta : Decoded) (hbta : AllBytes bta) (hdta : decodeCert bta = some dta)
+    (strictTa sigTa : Bool) (t0 : Int)
+    (cas : List CaInput) (hcas : ∀ c ∈ cas, AllBytes c.octets ∧ decodeCert c.octets = some c.decoded)
+    (b : Bytes) (o : SigObjD) (hb : AllBytes b) (hd : decodeSigObj b = some o)
+    (sigKeyOk eeSigOk crlOk : Bool) (sigInput : Bytes) (now : Int)
+    (a : Roa.Aspa) (ha : Roa.decodeAspa Rpki.Consts.aspaObjMaxLen o.content = some a)
+    (rta rca : RC)
+    (h0 : validateTa (toFacts dta false strictTa sigTa) t0 = some rta)
+    (h1 : C01.validateChain rta (cas.map CaInput.facts) = some rca)
+    (h : aspaProcess Sha.sha256N (toObj o sigKeyOk sigInput eeSigOk) a.customer rca now crlOk = true) :
+    mem rta.asn a.customer ∧ fromResources (toFacts dta false strictTa sigTa).asn = some rta.asn ∧
+    (toFacts o.cert false true eeSigOk).asn ≠ .inherit ∧
+    (toFacts o.cert false true eeSigOk).v4 = .missing ∧ (toFacts o.cert false true eeSigOk).v6 = .missing := by
+  have _ := ha
+  have cta := C01.claimsCanon_of_octets bta dta hbta hdta false strictTa sigTa
+  have c0 := C01.validateTa_canon _ t0 rta cta h0
+  have hfs : ∀ p ∈ cas.map CaInput.facts, C01.ClaimsCanon p.1 := by
+    intro p hp
+    rw [List.mem_map] at hp
+    obtain ⟨c, hc, rfl⟩ := hp
+    exact C01.claimsCanon_of_octets c.octets c.decoded (hcas c hc).1 (hcas c hc).2 false c.strict c.sigOk
+  have s1 := C01.chain_monotone _ rta rca c0 hfs h1
+  obtain ⟨_, cc, rest, hcc, htc⟩ := decodeSigObj_spec b o hb hd
+  have hdc : decodeCert cc = some o.cert := by unfold decodeCert; rw [htc]; rfl
+  have cee : C01.ClaimsCanon (toObj o sigKeyOk sigInput eeSigOk).ee :=
+    C01.claimsCanon_of_octets cc o.cert hcc hdc false true eeSigOk
+  unfold aspaProcess at h
+  cases hv : validateAt Sha.sha256N (toObj o sigKeyOk sigInput eeSigOk) rca now with
+  | none => simp [hv] at h
+  | some cert =>
+    simp only [hv, Bool.and_eq_true] at h
+    obtain ⟨_, _, _, _, _, _, _, hee⟩ := (validateAt_iff _ _ rca now cert).1 hv
+    have s2 := C01.validated_subset _ rca cert now cee s1.1 (Or.inr hee)
+    obtain ⟨m1, m2, m3, m4⟩ := (aspaVerify_iff a.customer _ cert s2.1).1 h.2
+    obtain ⟨_, _, _, _, _, _, _, _, _, ra⟩ := C01.validateTa_sound _ t0 rta h0
+    exact ⟨s1.2.2.2 _ (s2.2.2.2 _ m1), ra, m2, m3, m4⟩
+
+end Pipeline
+
 /-! ### the same in either decoding mode
 
 Relying parties may decode signed objects in relaxed (BER) mode (`strict = false`).  `decodeSigObjM ber` is the
